@@ -174,35 +174,37 @@ Ctrls == {CId(y) : y \in Ids} \cup {CGroup(g) : g \in Groups}
 
 \* signer sets tried for an attempt: the one it claims, or all of SignerSets for a canonical attempt
 Sig(claimed, canon) == IF canon THEN SignerSets ELSE {claimed}
+\* (every disjunct starts with the bound on the number of operations; Next is a plain disjunction so that TLC
+\* splits it into sub-actions)
+More == nops < MaxOps
 Next ==
-  /\ nops < MaxOps
-  /\ \E x \in Ids :
-    \/ \E k \in Keys : \E S \in Sig({k}, k = K0) : RegPk(x, k, S)
-    \/ \E c \in Ctrls : \E p \in ProofsFor(c) :
+  \E x \in Ids :
+    \/ More /\ \E k \in Keys : \E S \in Sig({k}, k = K0) : RegPk(x, k, S)
+    \/ More /\ \E c \in Ctrls : \E p \in ProofsFor(c) :
           /\ c.kind = "id" => c.id # x
           /\ \E S \in Sig(PrKeys(p), c = CGroup(G0) /\ p = PR0(c)) : RegCtrl(x, c, p, S)
-    \/ \E k \in Keys, i \in Idx : \E S \in Sig(KeyAt(x, i), k = K0 /\ i = 1) :
+    \/ More /\ \E k \in Keys, i \in Idx : \E S \in Sig(KeyAt(x, i), k = K0 /\ i = 1) :
           \/ Room(x) /\ AddKeyIdx(x, k, i, S)
           \/ RemoveKeyIdx(x, k, i, S)
           \/ Room(x) /\ AddNewAuthKey(x, k, i, S)
-    \/ \E j \in 1..MaxKeys, i \in Idx : \E S \in Sig(KeyAt(x, i), j = 1 /\ i = 1) :
+    \/ More /\ \E j \in 1..MaxKeys, i \in Idx : \E S \in Sig(KeyAt(x, i), j = 1 /\ i = 1) :
           SetAuthKey(x, j, i, S) \/ RemoveAuthKey(x, j, i, S)
-    \/ \E k \in Keys, op \in Ops : \E S \in Sig({op.key}, k = K0 /\ op = OP0) :
+    \/ More /\ \E k \in Keys, op \in Ops : \E S \in Sig({op.key}, k = K0 /\ op = OP0) :
           \/ Room(x) /\ AddKeyPk(x, k, op, S)
           \/ RemoveKeyPk(x, k, op, S)
           \/ AddRecoveryOld(x, k, op, S)
-    \/ \E k \in Keys, old \in Keys : \E S \in Sig({old}, k = K0 /\ old = K1) : ChangeRecoveryOld(x, k, old, S)
-    \/ \E a \in AttrNames, i \in Idx : \E S \in Sig(KeyAt(x, i), i = 1) :
+    \/ More /\ \E k \in Keys, old \in Keys : \E S \in Sig({old}, k = K0 /\ old = K1) : ChangeRecoveryOld(x, k, old, S)
+    \/ More /\ \E a \in AttrNames, i \in Idx : \E S \in Sig(KeyAt(x, i), i = 1) :
           AddAttrIdx(x, a, i, S) \/ RemoveAttrIdx(x, a, i, S)
-    \/ \E a \in AttrNames, op \in Ops : \E S \in Sig({op.key}, op = OP0) : AddAttrPk(x, a, op, S)
-    \/ \E g \in Groups, i \in Idx : \E S \in Sig(KeyAt(x, i), g = G0 /\ i = 1) : SetRecovery(x, g, i, S)
-    \/ \E i \in Idx : \E S \in Sig(KeyAt(x, i), i = 1) :
+    \/ More /\ \E a \in AttrNames, op \in Ops : \E S \in Sig({op.key}, op = OP0) : AddAttrPk(x, a, op, S)
+    \/ More /\ \E g \in Groups, i \in Idx : \E S \in Sig(KeyAt(x, i), g = G0 /\ i = 1) : SetRecovery(x, g, i, S)
+    \/ More /\ \E i \in Idx : \E S \in Sig(KeyAt(x, i), i = 1) :
           RemoveRecovery(x, i, S) \/ RemoveController(x, i, S) \/ RevokeID(x, i, S) \/ VerifySig(x, i, S)
-    \/ \E sg \in SgSets :
+    \/ More /\ \E sg \in SgSets :
           \/ \E g \in Groups : \E S \in Sig(SgKeys(sg), sg = SG0 /\ g = G0) : UpdateRecovery(x, g, sg, S)
           \/ \E k \in Keys : \E S \in Sig(SgKeys(sg), sg = SG0 /\ k = K0) : Room(x) /\ AddKeyByRecovery(x, k, sg, S)
           \/ \E j \in 1..MaxKeys : \E S \in Sig(SgKeys(sg), sg = SG0 /\ j = 1) : RemoveKeyByRecovery(x, j, sg, S)
-    \/ \E p \in ProofsFor(ids[x].ctrl) : LET c0 == (p = PR0(ids[x].ctrl)) IN
+    \/ More /\ \E p \in ProofsFor(ids[x].ctrl) : LET c0 == (p = PR0(ids[x].ctrl)) IN
           \/ \E k \in Keys : \E S \in Sig(PrKeys(p), c0 /\ k = K0) : Room(x) /\ AddKeyByCtrl(x, k, p, S)
           \/ \E j \in 1..MaxKeys : \E S \in Sig(PrKeys(p), c0 /\ j = 1) :
                 RemoveKeyByCtrl(x, j, p, S) \/ SetAuthKeyByCtrl(x, j, p, S)
